@@ -52,6 +52,11 @@ CLAIMED = {
          "Generated-input search with reference implementations as oracle (validated on the RFC 5802, 7677 and 6070 test vectors); sampled.",
          "Unicode credentials are restricted to fixed points of SASLprep and PRECIS (no independent normaliser offline); NUL (and ^A for XOAUTH2) are not generated; SCRAM's local refusal of PRECIS-forbidden strings is a permitted outcome.",
          "DESIGN.md section 3, C14"),
+ "C15": ("fault_enumeration",
+         "bounded-exhaustive enumeration of adversarial server message sequences (alphabet of 11 valid/forged/malformed SCRAM messages and final replies) driven through smtp.Client.Auth, judged by a reference tracker of the exchange (own RFC 5802 implementation)",
+         "Exhaustive for all sequences up to length 5 (PLUS: 4) in quick and 7 (PLUS: 6) in thorough over the stated alphabet, with pruning only after the client aborted or the exchange ended; for SCRAM-SHA-1/-256 and both PLUS variants over a real TLS 1.2 handshake.",
+         "Fixed credentials and PBKDF2 iteration count 4; the alphabet is finite and chosen by the harness; the bare-235 acceptance is a recorded known finding (scram-bare-235), excluded by signature and counted.",
+         "DESIGN.md section 3, C15"),
  "C17": ("fault_enumeration",
          "stall-point fault injection: the reference server goes silent at every enumerated step of the dial and send dialogues (incl. TLS handshake, AUTH challenges, inside DATA content with a bounded buffer) x TLS policy x auth class x call {DialWithContext, DialAndSend, Send, Reset} x timeout; oracle: the call returns a non-nil error within max(20 x timeout, 15 s), misses must repeat twice",
          "Complete for the enumerated stall points (one per command position per TLS mode and auth mechanism class); boundedness is observed with real clocks, not proved.",
